@@ -68,3 +68,30 @@ Proof.
   intros; split; [exact (tie_delete_expired_sharded _ _)|split; [exact (tie_delete_expired_sharded_of _ _)|exact (tie_delete_expired_sync _ _)]].
 Qed.
 Print Assumptions C11_source_delete_expired.
+
+(* ---- the janitor goroutine: when cleanup cycles happen at all ---- *)
+From Cache Require Import TieDefaults.
+
+(* one turn of Trait.janitor: wait DeleteExpiredJobInterval, run exactly one cleanup cycle, go round; on Closed return *)
+Theorem C11_source_janitor_turn : forall interval debug stat len,
+  run_turn fn_Trait_janitor "c.Config.DeleteExpiredJobInterval" interval debug stat 0 len =
+    Some (false, [("After", [VZ interval]); ("invokeCleanup", [])]) /\
+  run_turn fn_Trait_janitor "c.Config.DeleteExpiredJobInterval" interval debug stat 1 len =
+    Some (true, ("After", [VZ interval]) :: (if debug then [("log", [VStr "closing cache janitor"])] else [])).
+Proof. exact tie_janitor. Qed.
+Print Assumptions C11_source_janitor_turn.
+
+(* Trait.init starts it iff the backend installed DeleteExpired or Evict; the interval defaults to one hour *)
+Theorem C11_source_janitor_started : forall stats len de ev ji ri,
+  run_init_gos stats len de ev ji ri =
+  Some ((if stats && len then [VStr "c.reportItemsCount"] else []) ++ (if de || ev then [VStr "c.janitor"] else []),
+        Some (VZ (if ji =? 0 then 3600 * sec else ji)), Some (VZ (if ri =? 0 then 60 * sec else ri)))%list.
+Proof. exact tie_trait_goroutines. Qed.
+Print Assumptions C11_source_janitor_started.
+
+(* SyncMap's scan deletes with CompareAndDelete(key, examined entry) *)
+From Cache Require Import TieAccessors.
+Theorem C11_source_sync_delete_entry :
+  run_delete_entry = Some [("CompareAndDelete", [VPtr true "key"; VPtr true "e"])].
+Proof. exact tie_sync_delete_entry. Qed.
+Print Assumptions C11_source_sync_delete_entry.
